@@ -306,7 +306,8 @@ def run(ctx):
     plans = [('{"a", "d/c"}', '{"bzr", "git"}')] if ctx.quick else [('{"a", "b", "d/c"}', '{"bzr"}'), ('{"a", "d/c"}', '{"git"}')]
     cases = []
     for files, fls in plans:
-        got, _ = table_common.generate(ctx, "NoSilentDiscardGen", {"Files": files, "Flavours": fls}, witnesses=WITNESSES,
+        wit = tuple(w for w in WITNESSES if "bzr" in fls or w != "WitnessHelperAtRisk")
+        got, _ = table_common.generate(ctx, "NoSilentDiscardGen", {"Files": files, "Flavours": fls}, witnesses=wit,
                                        workers=8, timeout=2400, label="NoSilentDiscardGen %s %s" % (files, fls))
         cases += got
     total = len(cases)
@@ -388,3 +389,19 @@ def run(ctx):
     ctx.cov["exhaustive"] = not ctx.quick
     ctx.cov["cases_enumerated"] = total
     ctx.assume("two-region text model; one representative path per class; merge-like commands start without pending merge")
+
+
+def replay(ctx, rep):
+    """./check C12 --replay <file>: run the recorded case again on the current tree and show what happened."""
+    env.init()
+    _silence()
+    row = rep["replay"]
+    c = row["c"]
+    fx = Fix(ctx.tmp("replay"), c["fl"], SHAPE.get(c["op"], "standalone"), c["cls"])
+    fx.build_template()
+    before, after, out = fx.run(c, row.get("via", "api"))
+    print("case    %s" % c)
+    print("outcome %s" % out)
+    print("before  %s" % dict(sorted(before.items())))
+    print("after   %s" % dict(sorted(after.items())))
+    print("recorded signature: %s" % rep["signature"])
